@@ -36,6 +36,7 @@ func main() {
 		keep     = flag.Bool("keep", false, "keep scratch directory")
 		replayF  = flag.String("replay", "", "replay file to re-run")
 		selftest = flag.Bool("canary", true, "run vacuity canaries")
+		genOpts  = flag.Bool("gen-options", false, "print the generated contract section for vflow.Options (C17)")
 		rf       = flag.Bool("rf", false, "development: replay failed obligations")
 	)
 	flag.Parse()
@@ -53,6 +54,15 @@ func main() {
 			os.Exit(1)
 		}
 		os.Exit(2)
+	}
+	if *genOpts {
+		sec, msg := w.optionsSection()
+		if msg != "" {
+			fmt.Fprintln(os.Stderr, "govc:", msg)
+			os.Exit(2)
+		}
+		fmt.Print(sec)
+		return
 	}
 	tLoad := time.Since(t0)
 	r := &Runner{w: w, verif: *verif, tier: *tier, verbose: *verbose, keep: *keep, dump: *dump, canary: *selftest, t0: t0, loadMs: tLoad.Milliseconds()}
@@ -214,6 +224,11 @@ func (r *Runner) run(spec *PropSpec) *runResult {
 				}
 			}
 			fc := r.w.groundGuardedAccess(ver)
+			res.ctxs = append(res.ctxs, fc)
+			res.obls = append(res.obls, fc.obls...)
+		}
+		if g == "options" {
+			fc := r.w.groundOptions()
 			res.ctxs = append(res.ctxs, fc)
 			res.obls = append(res.obls, fc.obls...)
 		}
